@@ -613,6 +613,11 @@ func addSyscall(rule *ruleData, syscall string) error {
 		}
 	}
 
+	if syscallNum < 0 || int64(syscallNum) > math.MaxUint32 {
+		// Must not wrap around into a valid syscall number below.
+		return fmt.Errorf("invalid syscall number %v", syscallNum)
+	}
+
 	if rule.allRequested {
 		// "all" was asked for as well: every syscall is already selected.
 		return nil
